@@ -867,30 +867,34 @@ def alias_check(chk):
                                          "assert u.base_value == 7.0 and u.dimensions == D.length/D.time**3, (u.base_value, u.dimensions)\n"})
 
 
-def witness_replays(chk, cfg_repaired):
-    """the witnesses of the `C12_counterexample_*` theorems, replayed on the real library: on the
-    present code each must fail (else the model claims a defect the code does not have)"""
-    W = [("modify_prefixed", ["add_foo1", "u_kfoo", "modf_foo"], ("unit", "k" + SYM)),
-         ("remove_prefixed", ["add_foo1", "u_kfoo", "rm_foo"], ("unit", "k" + SYM)),
-         ("modify_compound", ["add_foo1", "u_foo_s", "modf_foo"], ("unit", SYM + "*s")),
-         ("readd_atomic", ["add_foo1", "u_foo", "add_foo2"], ("unit", SYM)),
-         ("id_lookup_history", ["add_foo1", "u_kfoo"], ("sysid", "")),
-         ("id_stale_after_modify_quantity", ["add_foo1", "modq_foo"], ("sysid", ""))]
-    for name, hist, (kind, q) in W:
+def witness_replays(chk, cfg):
+    """the witnesses of the `C12_counterexample_*` theorems (statements about the machine configured as the code
+    was before the fix: commits), replayed on the real library: a witness must fail exactly when the regenerated
+    configuration still has the layer it exposes (else the model and the code disagree about that layer)"""
+    both = cfg["clearCache"] and cfg["purgeDerived"]
+    W = [("modify_prefixed", ["add_foo1", "u_kfoo", "modf_foo"], "unit", not both),
+         ("remove_prefixed", ["add_foo1", "u_kfoo", "rm_foo"], "unit", not both),
+         ("modify_compound", ["add_foo1", "u_foo_s", "modf_foo"], "unit", not cfg["clearCache"]),
+         ("readd_atomic", ["add_foo1", "u_foo", "add_foo2"], "unit", not cfg["clearCache"]),
+         ("edit_of_derived_key", ["add_foo1", "u_kfoo", "modf_kfoo"], "edit", not cfg["purgeDerived"]),
+         ("id_lookup_history", ["add_foo1", "u_kfoo"], "sysid", not cfg["idSkipsDerived"]),
+         ("id_stale_after_modify_quantity", ["add_foo1", "modq_foo"], "memo", not cfg["memoResetLast"])]
+    for name, hist, kind, expect_fail in W:
         chk.case(("witness", name))
         chk.count("counterexample-witness")
         res = run_history(hist, want_state=False)
-        hit = [f for f in res["failures"] if ("unit_system_id" in f["key"]) == (kind == "sysid")]
-        if cfg_repaired and hit:
-            chk.disagree("witness", f"the live configuration is the repaired one but the witness {name} still fails: {hit[0]['what']}")
-        if not cfg_repaired and not hit:
-            chk.disagree("witness", f"C12_counterexample_{name}: the real library does not show the defect the theorem exhibits")
-    # the derived-key edit
-    res = run_history(["add_foo1", "u_kfoo", "modf_kfoo"], want_state=False)
-    hit = [f for f in res["failures"] if "edit-outcome" in f["key"]]
-    chk.case(("witness", "edit_of_derived_key"))
-    if (not cfg_repaired) and not hit:
-        chk.disagree("witness", "C12_counterexample_edit_of_derived_key: not reproduced on the real library")
+        if kind == "unit":
+            hit = [f for f in res["failures"] if "|stale|" in f["key"] or "|lost|" in f["key"]]
+        elif kind == "edit":
+            hit = [f for f in res["failures"] if "edit-outcome" in f["key"]]
+        elif kind == "memo":
+            hit = [f for f in res["failures"] if "memo-survives-edit" in f["key"]]
+        else:
+            hit = [f for f in res["failures"] if "unit_system_id" in f["key"]]
+        if expect_fail and not hit:
+            chk.disagree("witness", f"C12_counterexample_{name}: the regenerated configuration {cfg} has this defect, the real library does not show it")
+        if hit and not expect_fail:
+            chk.disagree("witness", f"C12_counterexample_{name}: the regenerated configuration {cfg} says the layer is invalidated, but the witness fails: {hit[0]['what']}")
 
 
 def run(tier, seed):
@@ -903,9 +907,10 @@ def run(tier, seed):
     except Exception as e:  # noqa: BLE001
         chk.disagree("translator", f"no configuration extracted: {e!r}")
         cfg = {"clearCache": False, "purgeDerived": False, "idSkipsDerived": False, "memoResetLast": False}
-    repaired = all(cfg.values())
     chk.extra["registry_cfg"] = cfg
-    chk.extra["active_theorem"] = "refines_fresh_repaired (full strength)" if repaired else "refines_fresh_partial + C12_counterexample_*"
+    chk.extra["active_theorem"] = ("C12_resolution_full (every call but unit_system_id, all histories)"
+                                   + ("; C12_full via refines_fresh_repaired" if all(cfg.values()) else
+                                      "; unit_system_id: refines_fresh_partial under the guard"))
     # the vocabulary must be free of built-in names
     ex = gen.extract()
     for s in (SYM, SYM2, "k" + SYM, "M" + SYM, "k" + SYM2):
@@ -984,7 +989,7 @@ def run(tier, seed):
         chk.fail(key, f["what"], {"python": f["py"], "history": h})
     chk.extra["guard"] = {"histories_within_guard": n_safe, "of_which_oracle_failed": n_safe_bad}
     alias_check(chk)
-    witness_replays(chk, repaired)
+    witness_replays(chk, cfg)
     if os.environ.get("C12_DEBUG"):
         for d in chk.disagreements[:40]:
             print("DISAGREE", d[0], d[1][:600])
